@@ -322,7 +322,7 @@ if vok == 0 or vbad == 0:
     ck.inconclusive.append(f'vacuous: verify_chain accepted on {vok} paths, rejected on {vbad}')
 
 # ------------------------------------------------------------------ B3 the Merkle root binds the transaction list
-NL = 4 if T == 'quick' else 6
+NL = 6 if T == 'quick' else 8
 SHA = z3.Function('sha256_of_64_bytes', z3.BitVecSort(512), z3.BitVecSort(256))
 
 
